@@ -6,6 +6,7 @@
 package c08notary
 
 import (
+	"bytes"
 	"fmt"
 	"math/big"
 	"testing"
@@ -47,6 +48,7 @@ type AReq struct {
 	Nvb    int    `json:"nvb"`    // NotValidBefore of the fallback
 	Vub    int    `json:"vub"`    // ValidUntilBlock of main and fallback
 	Kind   string `json:"kind"`   // "ok" | "mainnotary" (main transaction sent by the Notary contract)
+	Pad    int    `json:"pad"`    // extra script bytes of the fallback: fee per byte and network fee order differently
 }
 
 // ADep is the initial deposit of a depositor.
@@ -287,7 +289,8 @@ func (w *World) buildReq(id int, a AReq) (*realReq, error) {
 	if main.ValidUntilBlock != vub {
 		return nil, fmt.Errorf("request %d: requests sharing main %d must share ValidUntilBlock", id, a.Main)
 	}
-	fb := transaction.New([]byte{byte(opcode.RET)}, (a.Cost-a.Netfee)*unit)
+	script := append(bytes.Repeat([]byte{byte(opcode.NOP)}, a.Pad), byte(opcode.RET))
+	fb := transaction.New(script, (a.Cost-a.Netfee)*unit)
 	fb.Nonce = uint32(id)
 	fb.ValidUntilBlock = vub
 	fb.NetworkFee = a.Netfee * unit
